@@ -47,14 +47,18 @@ RULE = ("one run = one seeded shape + one allocating operation, executed "
         "operation, n, a, tree height, contents outcome) tuples where the "
         "failure really fired")
 TECHNIQUE = ("fault injection at the allocator seam (guarded hook: the n-th "
-             "BTree_Malloc/BTree_Realloc of one operation fails), "
+             "BTree_Malloc/BTree_Realloc or Python-object allocation made "
+             "by the extension itself of one operation fails), "
              "enumerated over every n; MemoryError, "
              "soundness, old-or-new contents, follow-up workload and "
              "reference ledger oracles; sanitizer build")
 LEVEL_TEXT = ("Seeded shapes (all families, 4 kinds, C implementation) x "
               "seeded allocating operation kinds x allocation index n "
               "(enumerated) through the "
-              "guarded allocation-failure hook: MemoryError must reach the "
+              "guarded allocation-failure hook (BTree_Malloc / BTree_Realloc "
+              "and fault points at the extension's own Python-object "
+              "allocations: nodes, result containers, state tuples, lazy "
+              "sequences): MemoryError must reach the "
               "caller, the container must stay sound with old-or-completed "
               "contents and keep working (the failed leaf is grown again), "
               "references must balance; run on the plain and on the "
